@@ -8,8 +8,12 @@ WEIGHTS = {"add": 30, "select": 10, "chain": 8, "delete": 12, "dellist": 6, "plo
            "hyper": 2, "modelplot": 3, "vis": 4, "fold": 4, "title": 5}
 MODE = {"toc": True, "render": True, "nodes": True, "addr": True}
 
-# fixed witness of the open finding C09-F1 (Card.select / Card.delete accept an empty name in the middle of a path)
-PROBES = [[["add", False, [["a//b", "x"]]], ["select", "a//b"]]]
+# witnesses of the repaired finding C09-F1 (Card.select / Card.delete accepted an empty name in the middle of a path): replayed
+# against the implementation with the reference oracle on every run (any empty name -> KeyError, nothing changes); they also run
+# first in the model correspondence (CORPUS)
+PROBES = [[["add", False, [["a//b", "x"]]], ["select", "a//b"]],
+          [["add", False, [["a//b", "x"]]], ["chain", ["a", "/b"]], ["delete", "a//b"], ["dellist", ["a", "", "b"]],
+           ["vis", ["a//b"], False], ["select", "a/ /b"], ["delete", "a"]]]
 
 # hand-written sequences that run first: the witnesses of the repaired defect D13 and classic interactions
 CORPUS = [
@@ -17,7 +21,7 @@ CORPUS = [
      ["select", "u\x1fv"], ["delete", "x/ \\/ "], ["select", "x"]],
     [["add", False, [["A", "1"], ["A/B", "2"], ["C", "3"]]], ["add", True, [["A", "4"]]], ["delete", "A/B"], ["add", False, [["A/B/D", "5"]]],
      ["dellist", ["A", " B"]], ["dellist", ["A", "B"]], ["chain", ["A", "B"]], ["select", ""], ["delete", "A/"], ["dellist", []]],
-]
+] + PROBES
 
 
 def run(R):
@@ -29,8 +33,8 @@ def run(R):
                        "select, chained select, delete str/list, visible/folded assignment) over titles from an alphabet with '/', '\\\\/', "
                        "'\\\\', blanks (space, tab, U+001C, U+001F, U+0085, U+00A0, U+2003, U+3000), non-BMP code points, duplicates of existing "
                        "titles; after every operation the whole observation is compared; non-trivial = at least one operation succeeded")
-    R.notes["guards"] = ["C09_chain_partial: last name of p non-empty and every name of q non-empty, p not ending in a backslash",
-                         "C09_chain_refuted: card {a:{'':{b}}}, p='a', q='/b'",
+    R.notes["guards"] = ["C09_chain: p not ending in a backslash (path syntax: it would escape the joining slash; C09_chain_backslash_example); "
+                         "no guard on the names is left (C09-F1 repaired: C09_select_empty_middle_fixed on the card {a:{'':{b}}})",
                          "add theorems: the new section has no subsections (true of every section the API constructs)"]
     R.notes["not_modelled"] = ["Section values passed to _add_single that already carry subsections (ValueError branch): not reachable through the modelled API",
                                "pathlib.Path plot paths (str paths only)", "copy_files=True file copying"]
